@@ -33,7 +33,11 @@ import (
 	"github.com/EdgeCast/vflow/reader"
 )
 
-type nonfatalError error
+// nonfatalError marks errors that are confined to one flowset:
+// decoding continues with the next flowset
+type nonfatalError struct {
+	error
+}
 
 // PacketHeader represents Netflow v9  packet header
 type PacketHeader struct {
@@ -351,8 +355,8 @@ func (d *Decoder) decodeData(tr TemplateRecord) ([]DecodedField, error) {
 		}]
 
 		if !ok {
-			return nil, nonfatalError(fmt.Errorf("Netflow element key (%d) not exist (scope)",
-				tr.ScopeFieldSpecifiers[i].ElementID))
+			return nil, nonfatalError{fmt.Errorf("Netflow element key (%d) not exist (scope)",
+				tr.ScopeFieldSpecifiers[i].ElementID)}
 		}
 
 		fields = append(fields, DecodedField{
@@ -373,8 +377,8 @@ func (d *Decoder) decodeData(tr TemplateRecord) ([]DecodedField, error) {
 		}]
 
 		if !ok {
-			return nil, nonfatalError(fmt.Errorf("Netflow element key (%d) not exist",
-				tr.FieldSpecifiers[i].ElementID))
+			return nil, nonfatalError{fmt.Errorf("Netflow element key (%d) not exist",
+				tr.FieldSpecifiers[i].ElementID)}
 		}
 
 		fields = append(fields, DecodedField{
@@ -443,10 +447,10 @@ func (d *Decoder) decodeSet(mem MemCache, msg *Message) error {
 		var ok bool
 		tr, ok = mem.retrieve(setHeader.FlowSetID, d.raddr)
 		if !ok {
-			err = nonfatalError(fmt.Errorf("%s unknown netflow template id# %d",
+			err = nonfatalError{fmt.Errorf("%s unknown netflow template id# %d",
 				d.raddr.String(),
 				setHeader.FlowSetID,
-			))
+			)}
 		}
 	}
 
@@ -456,10 +460,10 @@ func (d *Decoder) decodeSet(mem MemCache, msg *Message) error {
 	if setHeader.FlowSetID > 255 && err == nil {
 		if minLen = tr.recordLen(); minLen < 1 {
 			// records without any octets can not be delimited
-			err = nonfatalError(fmt.Errorf("%s netflow template id# %d describes empty records",
+			err = nonfatalError{fmt.Errorf("%s netflow template id# %d describes empty records",
 				d.raddr.String(),
 				setHeader.FlowSetID,
-			))
+			)}
 		}
 	}
 
